@@ -6,7 +6,7 @@
    front-end fills with references and the visitor never visits). *)
 From Coq Require Import List String Bool.
 From Cog Require Import Model.IR Model.Passes Model.Filter Model.Process Model.Refs Model.Spec05
-     Proofs.PassLemmas Proofs.C05Proofs.
+     Proofs.PassLemmas Proofs.C05Proofs Model.PassesChain Model.NF Gen.Chains_gen Proofs.ChainPresProofs Proofs.ChainRefsProofs.
 Import ListNotations.
 
 Definition hidden_free_ss (ss : schemas) : Prop :=
@@ -98,3 +98,29 @@ Example c05_nonvacuous :
   schema_refs (nth 0 (rename_object "p" "bar" "Baz" c05_example) (mkSchema "" m0 "" ty_zero []))
   = [("p", "Foo"); ("p", "Baz"); ("p", "Baz"); ("p", "Baz")].
 Proof. vm_compute. repeat split; reflexivity. Qed.
+
+(* ---------------- through a whole language chain (Proofs/ChainRefsProofs.v) ----------------
+   resolves splits into: every reference into a loaded package names an object (refs_ok), every entry point names
+   an object of its schema (entries_ok), every discriminator mapping targets an object (mappings_ok). *)
+Theorem resolves_splits : forall ss, resolves ss = true <-> refs_ok ss /\ entries_ok ss /\ mappings_ok ss.
+Proof. exact resolves_iff. Qed.
+Print Assumptions resolves_splits.
+(* the REGENERATED Python chain keeps every reference and entry point resolving, for ALL well-keyed inputs (keys are
+   the object names, objects carry their schema's package, packages are distinct) - no tame condition: the passes
+   that create objects (AnonymousStructsToNamed ...) register them in the same call that creates the references *)
+Theorem python_chain_keeps_references_resolving : forall ss out,
+  wf_refs_input ss -> refs_ok ss -> entries_ok ss -> process chain_python ss = Ok out ->
+  refs_ok out /\ entries_ok out.
+Proof. exact python_chain_keeps_references. Qed.
+Print Assumptions python_chain_keeps_references_resolving.
+(* mappings are the open part: FlattenDisjunctions can orphan a mapping target (finding
+   C05-flatten-case-colliding-branches), so mappings_ok of the output stays a hypothesis *)
+Theorem python_chain_keeps_resolving_modulo_mappings : forall ss out,
+  wf_refs_input ss -> resolves ss = true -> process chain_python ss = Ok out -> mappings_ok out -> resolves out = true.
+Proof. exact python_chain_resolves_modulo_mappings. Qed.
+Print Assumptions python_chain_keeps_resolving_modulo_mappings.
+Theorem python_chain_references_hypotheses_satisfiable :
+  wf_refs_input w_tame /\ resolves w_tame = true /\
+  exists out, process chain_python w_tame = Ok out /\ resolves out = true /\ List.length (objects_of out) = 5.
+Proof. exact python_chain_references_nonvacuous. Qed.
+Print Assumptions python_chain_references_hypotheses_satisfiable.
